@@ -1,6 +1,7 @@
 package main
 
 import (
+	"sort"
 	"fmt"
 	"go/token"
 	"go/types"
@@ -455,6 +456,10 @@ func (x *Exec) applyContract(st *State, fr *Frame, c *Contract, name string, sig
 		}
 	}
 	res, vs := x.freshResult(st, sig, "ret")
+	for _, v := range vs {
+		// whatever a callee returns refers to objects that exist when it returns
+		x.assumeAllocated(st, v.typ, v.T)
+	}
 	bindResults(env, sig, vs)
 	x.logCall(st, c, short, args, vs, false)
 	post := x.ctxFor(c, st, pre, env, callee)
@@ -732,7 +737,24 @@ func (x *Exec) doReturn(st *State, fr *Frame, res []Val, pos token.Pos) {
 			if e.Name != "" {
 				label = "ensures:" + e.Name
 			}
+			// a postcondition that carries the label of a loop invariant is first tried with that
+			// invariant alone among the loop's quantified invariants (focus level)
+			if e.Name != "" && fr.parent == nil {
+				var ords []int
+				for ord := range c.Loops {
+					ords = append(ords, ord)
+				}
+				sort.Ints(ords)
+				for _, ord := range ords {
+					for j, inv := range c.Loops[ord].Invariants {
+						if inv.Name == e.Name {
+							x.nextFocus = fmt.Sprintf("%s#L%d/inv#%d", fr.fn.String(), ord, j+1)
+						}
+					}
+				}
+			}
 			x.addCheck(st, fr, label, g, pos, e.Text)
+			x.nextFocus = ""
 		}
 		x.frameCheck(st, fr, ctx, c, pos)
 	}
@@ -784,7 +806,7 @@ func (x *Exec) frameGoal(st *State, top *Frame, names []string, r T) T {
 		if whole {
 			continue
 		}
-		cond := and(append([]T{app(SBool, "<", r, top.entryNext), app(SBool, "<=", mkInt(0), r)}, excl...)...)
+		cond := and(append([]T{app(SBool, "<", r, top.entryNext), app(SBool, "<", mkInt(0), r)}, excl...)...)
 		goals = append(goals, implies(cond, eq(sel(cur, r), sel(old, r))))
 	}
 	return and(goals...)
@@ -1063,6 +1085,12 @@ func (x *Exec) doAppend(st *State, fr *Frame, c *ssa.CallCommon, resT types.Type
 		st.assume(and(app(SBool, ">=", capF, newLen), app(SBool, "<=", capF, T{"140737488355328", SInt})))
 		st.assume(offZero)
 		st.setHeap(arrHeapName(el), store(h, r, content))
+		// ground hints (consequences of the store above): they put the terms "new slice at the appended
+		// positions" into the solver's term bank, so quantified goals about the new slice can be instantiated there
+		nh := st.heaps[arrHeapName(el)]
+		for j := 0; j < nConst; j++ {
+			st.assume(eq(sel(sel(nh, r), app(SInt, "+", mkInt(0), app(SInt, "+", ln, mkInt(int64(j))))), src(mkInt(int64(j)))))
+		}
 		return Val{T: st.name("appres", mkSlice(r, mkInt(0), newLen, capF)), typ: resT}
 	}
 	newLen := st.name("nlen", app(SInt, "+", ln, n))
@@ -1193,12 +1221,54 @@ func ownedAccumulator(c *ssa.CallCommon) *ssa.Alloc {
 		return nil
 	}
 	cell, ok := ld.X.(*ssa.Alloc)
-	if !ok || cell.Heap {
+	if !ok {
 		return nil
 	}
 	refs := cell.Referrers()
 	if refs == nil {
 		return nil
+	}
+	if cell.Heap {
+		// a variable captured by closures that only read it is still owned by this function
+		for _, r := range *refs {
+			switch v := r.(type) {
+			case *ssa.Store, *ssa.DebugRef:
+			case *ssa.UnOp:
+				if v.Op != token.MUL {
+					return nil
+				}
+			case *ssa.MakeClosure:
+				fn, _ := v.Fn.(*ssa.Function)
+				if fn == nil {
+					return nil
+				}
+				for i, b := range v.Bindings {
+					if b != cell {
+						continue
+					}
+					if i >= len(fn.FreeVars) {
+						return nil
+					}
+					fr := fn.FreeVars[i].Referrers()
+					if fr == nil {
+						continue
+					}
+					for _, u := range *fr {
+						switch w := u.(type) {
+						case *ssa.DebugRef:
+						case *ssa.UnOp:
+							if w.Op != token.MUL {
+								return nil
+							}
+						default:
+							return nil
+						}
+					}
+				}
+			default:
+				return nil
+			}
+		}
 	}
 	for _, r := range *refs {
 		st, ok := r.(*ssa.Store)
